@@ -65,7 +65,7 @@ def write_if_changed(path, content):
     return True
 
 
-def build_tools():
+def build_tools(race=False):
     """gotrans and the harness, built against the current working tree of REPO."""
     env = goenv()
     notes = []
@@ -90,6 +90,10 @@ def build_tools():
     rc, out = run(["go", "build", "-tags", "verif", "-o", os.path.join(BUILD, "harness"), "."], cwd=hdir, env=env, timeout=900)
     if rc != 0:
         return False, "harness build against %s failed (the tree may not compile):\n%s" % (REPO, out)
+    if race:
+        rc, out = run(["go", "build", "-race", "-tags", "verif", "-o", os.path.join(BUILD, "harness_race"), "."], cwd=hdir, env=env, timeout=900)
+        if rc != 0:
+            return False, "race-detector build of the harness failed:\n" + out
     return True, "\n".join(notes)
 
 
@@ -107,7 +111,7 @@ def coq_make(targets, timeout=3000):
         rc, out = run(["coq_makefile", "-f", "_CoqProject", "-o", "Makefile"], cwd=COQ)
         if rc != 0:
             return rc, out
-    return run(["make", "-j16", "-k"] + targets, cwd=COQ, timeout=timeout)
+    return run(["make", "-j16", "-k", "COQC=timeout 1500 coqc"] + targets, cwd=COQ, timeout=timeout)
 
 
 FORBIDDEN = re.compile(r"\b(Admitted|admit|Axiom|Axioms|Parameter|Parameters|Conjecture|Conjectures|Unset Guard Checking|bypass_check|Admit Obligations|native_compute)\b|-type-in-type|-impredicative-set")
@@ -206,7 +210,7 @@ def main():
 
     # 1. tools + translator + proofs (shared build directory: one at a time)
     with Lock("build"):
-        ok, msg = build_tools()
+        ok, msg = build_tools(race=bool(cfg.get("race")))
         if not ok:
             broken.append({"what": "build", "detail": msg[-3000:]})
         else:
@@ -214,7 +218,8 @@ def main():
             notes.append(msg2)
             if not ok2:
                 broken.append({"what": "translator", "detail": msg2[-3000:]})
-        targets = ["Properties/%s.vo" % prop, "Checks/%s.vo" % prop, "Model/Tie.vo"]
+        checker = cfg.get("checker")
+        targets = ["Properties/%s.vo" % prop, "Model/Tie.vo"] + (["Checks/%s.vo" % checker] if checker else [])
         rc, out = coq_make(targets)
         make_ok = rc == 0
         if not make_ok:
@@ -226,7 +231,7 @@ def main():
         hits = forbidden_scan()
         if hits:
             broken.append({"what": "forbidden keyword in the development", "detail": hits})
-        checker_ready = os.path.exists(os.path.join(COQ, "Checks", prop + ".vo"))
+        checker_ready = bool(checker) and os.path.exists(os.path.join(COQ, "Checks", checker + ".vo"))
 
     discharged = len(names) if (prop_ok and make_ok and not hits) else 0
 
@@ -235,7 +240,7 @@ def main():
     results = []
     if os.path.exists(os.path.join(BUILD, "harness")) and not any(b["what"] == "build" for b in broken):
         budget = cfg.get("harness_timeout", {}).get(tier, 600)
-        rc, out = run([os.path.join(BUILD, "harness"), "-prop", prop, "-tier", tier, "-seed", str(seed), "-out", work],
+        rc, out = run([os.path.join(BUILD, "harness_race" if cfg.get("race") else "harness"), "-prop", prop, "-tier", tier, "-seed", str(seed), "-out", work],
                       timeout=budget, env=goenv())
         if rc != 0:
             prog = ""
@@ -258,7 +263,7 @@ def main():
     counts = {"ok": 0, "mismatch": 0, "unmodelled": 0, "stuck": 0, "property": 0, "unevaluated": 0}
     if summary and summary.get("shards"):
         if not checker_ready:
-            broken.append({"what": "Checks/%s.vo missing: case shards cannot be evaluated" % prop})
+            broken.append({"what": "Checks/%s.vo missing: case shards cannot be evaluated" % cfg.get("checker")})
         else:
             shards = summary["shards"]
             procs = []
